@@ -721,7 +721,8 @@ def lib_union_write_choice(node, cfg):
     for i in order:
         f = fields[i]
         if f["t"]["k"] == "struct" and f["name"] is None:
-            anon = i
+            # of several anonymous structures the largest one (the first in this order) is written (repair 94)
+            anon = i if anon is None else anon
             continue
         if (size_of(f["t"], cfg) or 0) > 0:
             return i
